@@ -283,6 +283,12 @@ func init() {
 			q := ""
 			writerRegion := map[int]bool{}
 			readerRegion := map[int]bool{}
+			// half of the rounds have a theme: their first three statements are of one kind (on different regions), so that
+			// whatever that kind of statement keeps outside the statement is used by several goroutines at once
+			theme := -1
+			if r.Intn(2) == 0 {
+				theme = []int{1, 2, 3, 5, 5, 100, 101, 102, 4, 0}[r.Intn(10)]
+			}
 			for g := 0; g < ng; g++ {
 				reg := r.Intn(16)
 				pre := AStr(fmt.Sprintf("r%02d", reg))
@@ -296,6 +302,9 @@ func init() {
 				}
 				if kind >= 11 {
 					kind += 89 // 100, 101, 102: readers of a different sort (below)
+				}
+				if theme >= 0 && g < 3 {
+					kind = theme
 				}
 				if kind >= 6 && kind < 100 { // writer: needs a region nobody else uses
 					if writerRegion[reg] || readerRegion[reg] {
